@@ -13,9 +13,9 @@ func (r NonRealtime) SysEx() []byte {
 
 	bf.WriteByte(0xF0)
 	bf.WriteByte(0x7E)
-	bf.WriteByte(r.Channel)
-	bf.WriteByte(r.SubID1)
-	bf.WriteByte(r.SubID2)
+	bf.WriteByte(dataByte(r.Channel))
+	bf.WriteByte(dataByte(r.SubID1))
+	bf.WriteByte(dataByte(r.SubID2))
 
 	bf.WriteByte(0xF7)
 	return bf.Bytes()
@@ -83,15 +83,15 @@ func IdentityReply(channel byte, manuID ManufacturerID, familycode [2]byte, mode
 	n.SubID2 = 0x02
 	bt := n.SysEx()
 	bf.Write(bt[:len(bt)-1]) // strip the 0xF7
-	bf.WriteByte(byte(manuID))
-	bf.WriteByte(familycode[0])
-	bf.WriteByte(familycode[1])
-	bf.WriteByte(modelnumber[0])
-	bf.WriteByte(modelnumber[1])
-	bf.WriteByte(version[0])
-	bf.WriteByte(version[1])
-	bf.WriteByte(version[2])
-	bf.WriteByte(version[3])
+	bf.WriteByte(dataByte(byte(manuID)))
+	bf.WriteByte(dataByte(familycode[0]))
+	bf.WriteByte(dataByte(familycode[1]))
+	bf.WriteByte(dataByte(modelnumber[0]))
+	bf.WriteByte(dataByte(modelnumber[1]))
+	bf.WriteByte(dataByte(version[0]))
+	bf.WriteByte(dataByte(version[1]))
+	bf.WriteByte(dataByte(version[2]))
+	bf.WriteByte(dataByte(version[3]))
 	bf.WriteByte(0xF7)
 
 	return bf.Bytes()
